@@ -35,6 +35,10 @@ class Run:
         self.known_hits = {}      # finding id -> count
         self.drift = {}           # clause -> count
         self.findings = load_findings(pid)
+        if os.path.isdir(REPLAY_DIR):
+            for f in os.listdir(REPLAY_DIR):
+                if f.startswith(pid + '_'):
+                    os.remove(os.path.join(REPLAY_DIR, f))
         self._distinct = set()
         self.evaluations = 0
 
